@@ -60,7 +60,7 @@ def main():
             mod.replay(chk, json.load(open(a.replay)))
         else:
             mod.run(chk)
-        rc = common.finish(chk, getattr(mod, "classify", None))
+        rc = common.finish(chk, getattr(mod, "classify", None), write_evidence=not a.replay)
     except Exception:
         traceback.print_exc()
         chk.oblige("check machinery ran to completion", False, traceback.format_exc()[-1500:])
